@@ -3,6 +3,7 @@
    [load] is SSHClientConfig.load / SSHServerConfig.load, [parse_file] is SSHConfig.parse,
    [env] carries the target (host, user, addresses), the process environment and the file tree. *)
 Require Import Coq.Strings.String.
+Require Import Coq.Sorting.Sorted Coq.Sorting.Permutation.
 From AV Require Import Base.Prelude Model.Config Proofs.ConfigProofs.
 
 (* First value wins.  For every environment (client or server, any target, any file tree), every
@@ -37,7 +38,8 @@ Print Assumptions C18_unmatched_lines_inert.
 
 (* List options accumulate: whatever a file (with everything it includes) does, the list an append
    option had before is a prefix of the list it has afterwards.  For options that undergo token
-   expansion (IdentityFile, CertificateFile) this needs the semantics that expands once per load. *)
+   expansion (IdentityFile, CertificateFile) this needs expansion once per load, which is what the
+   code does now (impl_quirks). *)
 Theorem C18_lists_accumulate : forall E o k fuel path st st' l,
   kind_of (table E) o = Some k -> append_kind k = true ->
   mem_str o (pct_expand E) = false \/ q_expand_each_parse (e_quirks E) = false ->
@@ -75,42 +77,64 @@ Theorem C18_match_conjunction : forall E os a1 a2 fin b1 f1 b2 f2,
 Proof. exact match_conjunction. Qed.
 Print Assumptions C18_match_conjunction.
 
-(* Include in place.  Partial: proved for the semantics in which token expansion happens once per
-   load (q_expand_each_parse = false).  An Include line in a matching context has the same effect
-   as the text of the selected files written in its place, each file preceded by "Match all", and
-   "Match all" after the last one.  What is missing for the code as it is: see the refutation. *)
-Theorem C18_include_in_place_partial : forall E f l pats pathss rest st r,
+(* Include in place, for the code as it is (impl_quirks has q_expand_each_parse = false, see the
+   example below): an Include line in a matching context has the same effect as the text of the
+   selected files written in its place, each file preceded by "Match all", and "Match all" after
+   the last one - same options, same matching flag, same _final.  [tinv] says that the token table
+   holds only '%' and possibly 'h', which is so at every point of a load (parse_file_tinv). *)
+Theorem C18_include_in_place : forall E f l pats pathss rest st r,
   q_expand_each_parse (e_quirks E) = false ->
-  s_matching st = true ->
+  s_matching st = true -> tinv (s_tokens st) ->
   tokenize E l = Some (z "include", pats) ->
   Forall2 (fun pat paths => glob E pat = Ok paths) pats pathss ->
   run_lines (parse_file f E) E (l :: rest) st = Ok r ->
-  run_lines (parse_file f E) E (flat_map (inline_files E) pathss ++ MATCH_ALL :: rest) st = Ok r.
+  exists r', run_lines (parse_file f E) E (flat_map (inline_files E) pathss ++ MATCH_ALL :: rest) st = Ok r'
+             /\ same_outcome r r'.
 Proof. exact include_in_place. Qed.
-Print Assumptions C18_include_in_place_partial.
+Print Assumptions C18_include_in_place.
 
-(* The code as it is (config.py: parse() ends with _set_tokens + expansion for every file, included
-   ones too) does not read included files in place: "IdentityFile a%%h" in an included file
-   resolves to "ahost", the same line written in place resolves to "a%h". *)
-Theorem C18_include_in_place_refuted : exists fs_inc fs_inl,
+(* About the OLD variant of the definitions (old_quirks = the code before d97dd8e, where parse()
+   ended with _set_tokens + expansion for every file, included ones too); it stays true of those
+   definitions: "IdentityFile a%%h" in an included file resolved to "ahost", the same line written
+   in place to "a%h". *)
+Theorem C18_include_in_place_old_refuted : exists fs_inc fs_inl,
   lookup (z "/main") fs_inl
-  = Some (flat_map (inline_files (refute_env impl_quirks fs_inc)) [[z "/inc"]] ++ [MATCH_ALL]) /\
-  load 5 (refute_env impl_quirks fs_inc) [] None None [z "/main"]
-  <> load 5 (refute_env impl_quirks fs_inl) [] None None [z "/main"].
+  = Some (flat_map (inline_files (refute_env old_quirks fs_inc)) [[z "/inc"]] ++ [MATCH_ALL]) /\
+  load 5 (refute_env old_quirks fs_inc) [] None None [z "/main"]
+  <> load 5 (refute_env old_quirks fs_inl) [] None None [z "/main"].
 Proof.
   exists fs_included, fs_inlined. split; [vm_compute; reflexivity|].
-  destruct include_not_in_place_as_is as [-> ->]. discriminate.
+  destruct include_not_in_place_old as [-> ->]. discriminate.
 Qed.
-Print Assumptions C18_include_in_place_refuted.
+Print Assumptions C18_include_in_place_old_refuted.
 
-(* The code as it is reads the files selected by an Include glob in directory order; ssh (glob(3))
-   reads them in sorted order.  With /d/b.conf listed before /d/a.conf the two orders resolve Port
-   differently. *)
-Theorem C18_include_glob_order_refuted : exists fs,
-  load 5 (refute_env impl_quirks fs) [] None None [z "/main"]
+(* About the OLD variant (before d9a79c3): Include read the files selected by a glob in directory
+   order.  With /d/b.conf listed before /d/a.conf this resolved Port differently from sorted order. *)
+Theorem C18_include_glob_order_old_refuted : exists fs,
+  load 5 (refute_env old_quirks fs) [] None None [z "/main"]
   <> load 5 (refute_env no_quirks fs) [] None None [z "/main"].
-Proof. exists fs_glob. destruct include_glob_order_as_is as [-> ->]. discriminate. Qed.
-Print Assumptions C18_include_glob_order_refuted.
+Proof. exists fs_glob. destruct include_glob_order_old as (-> & _ & ->). discriminate. Qed.
+Print Assumptions C18_include_glob_order_old_refuted.
+
+(* Include order, code as it is (since d0360eb; impl_quirks has q_glob_order = GString): the files an
+   Include argument selects are exactly the files whose path matches the pattern, and they are read
+   in ascending whole-string (strcmp) order, which is the order of glob(3) / ssh. *)
+Theorem C18_include_order_is_strcmp : forall E pat paths,
+  q_glob_order (e_quirks E) = GString -> glob E pat = Ok paths ->
+  Sorted str_le paths /\
+  exists cs, resolve_pattern E pat = Some cs /\
+    Permutation paths (filter (fun p => comps_match cs (split_on SLASH (tl p))) (map fst (e_fs E))).
+Proof. exact include_order_is_strcmp. Qed.
+Print Assumptions C18_include_order_is_strcmp.
+
+(* About the OLD variant pathsort_quirks (code between d9a79c3 and d0360eb, matches sorted as Path
+   objects, i.e. component lists compared): with directories "conf" and "conf.d" below a wildcard
+   that order differs from strcmp order.  Stays true of those definitions. *)
+Theorem C18_include_glob_sort_old_refuted : exists fs,
+  load 5 (refute_env pathsort_quirks fs) [] None None [z "/main"]
+  <> load 5 (refute_env no_quirks fs) [] None None [z "/main"].
+Proof. exists fs_glob2. destruct include_glob_sort_old as (-> & _ & ->). discriminate. Qed.
+Print Assumptions C18_include_glob_sort_old_refuted.
 
 (* Final pass.  The code as it is (connection.py _connect: options.update(reload=True, final=True))
    resolves the final pass from scratch; ssh parses the file again on top of the first pass, where
@@ -179,6 +203,10 @@ Example C18_example_first_wins_hyps :
   kind_of (table (ex_env (z "db"))) (z "Port") = Some KInt /\ set_once_kind KInt = true /\
   mem_str (z "Port") (pct_expand (ex_env (z "db"))) = false.
 Proof. vm_compute. repeat split; reflexivity. Qed.
+
+Example C18_example_impl_quirks :
+  q_expand_each_parse impl_quirks = false /\ q_glob_order impl_quirks = GString.
+Proof. split; reflexivity. Qed.
 
 Example C18_example_users :
   map unsafe_user [z "alice"; z ".."; z "~x"; z "a/b"; z "c:"; z "${X}"; z "{X}"; z "."; z "a%ub"]
